@@ -224,6 +224,10 @@ func c05Kinds() []kindVal {
 		{"f:1", 1.0, false}, {"f:1.5", 1.5, false}, {"f:-0", math.Copysign(0, -1), false}, {"f:1e308", 1e308, false}, {"f:2^63", 9223372036854775808.0, false},
 		{"n:1", json.Number("1"), false}, {"n:1.5", json.Number("1.5"), false}, {"n:1e400", json.Number("1e400"), false}, {"n:-1e400", json.Number("-1e400"), false}, {"n:1e-400", json.Number("1e-400"), false},
 		{"n:40digits", json.Number("1234567890123456789012345678901234567890"), false}, {"n:-0", json.Number("-0"), false}, {"n:maxint", json.Number("9223372036854775807"), false}, {"n:minint", json.Number("-9223372036854775808"), false},
+		// outside the float64 range by sheer length (no exponent), and tiny with many digits
+		{"n:400digits", json.Number("1" + strings.Repeat("0", 400)), false}, {"n:-400digits", json.Number("-" + strings.Repeat("9", 400)), false},
+		{"n:400digits.0", json.Number(strings.Repeat("9", 400) + ".0"), false}, {"n:309digits", json.Number("2" + strings.Repeat("0", 308)), false},
+		{"n:tiny400", json.Number("0." + strings.Repeat("0", 400) + "1"), false}, {"n:1E+400", json.Number("1E+400"), false}, {"n:-1.5e999", json.Number("-1.5e999"), false},
 		{"s:empty", "", false}, {"s:a", "a", false}, {"s:1", "1", false}, {"s:true", "true", false}, {"s:1e400", "1e400", false}, {"s:nan", "NaN", false},
 		{"arr:empty", []any{}, false}, {"arr:1a", []any{1.0, "a"}, false}, {"arr:nested", []any{[]any{1.0}, map[string]any{"a": nil}}, false},
 		{"obj:empty", map[string]any{}, false}, {"obj:a", map[string]any{"a": 1.0, "b": []any{2.0}}, false},
